@@ -351,9 +351,24 @@ struct Agg {
     determinism_rechecks: u64,
 }
 
+/// Lazily initialised process-global state of the code under test (hash seeds, protocol strings, thread
+/// pools) draws entropy from whichever simulated run touches it first. To keep one seed = one execution in
+/// every process, each process first executes the same few fixed plans on throw-away threads.
+fn warm_up<S: Sim>() {
+    for spec in S::properties() {
+        for run in 0..spec.modes.len().max(2) as u64 {
+            let (plan, _mode, entropy) = plan_for::<S>(DEFAULT_SEED ^ 0x77a7, &spec, Tier::Quick, run, &None);
+            let _ = execute_isolated::<S>(&plan, entropy);
+        }
+    }
+}
+
 pub fn main<S: Sim>() {
     let o = parse_opts();
     crate::shim::ensure();
+    if matches!(o.cmd.as_str(), "check" | "replay" | "show" | "fingerprints") {
+        warm_up::<S>();
+    }
     match o.cmd.as_str() {
         "check" => check::<S>(o),
         "replay" => replay::<S>(o),
